@@ -429,12 +429,11 @@ theorem Mono.appBindReq (e : EP) (req : Nat) (bt : BindType) (host : Bytes) (por
   split
   · exact Mono.refl e
   · rename_i fid rng' fb' hd
-    have s : Mono e { e with rng := rng', fallback := fb', flows := insert e.flows fid (.bindRequested req) } :=
-      (Mono.insertPending e fid (.bindRequested req) (fun _ => trivial)).trans ((by mn))
-    simp only
     split
-    · exact s
-    · exact s.trans (Mono.enqFrame _ _)
+    · exact (by mn)
+    · have s : Mono e { e with rng := rng', fallback := fb', flows := insert e.flows fid (.bindRequested req) } :=
+        (Mono.insertPending e fid (.bindRequested req) (fun _ => trivial)).trans ((by mn))
+      exact s.trans (Mono.enqFrame _ _)
 
 theorem Mono.appBindNext (e : EP) : Mono e (appBindNext e).1 := by
   unfold Mux.appBindNext
